@@ -92,3 +92,28 @@ def gen(out):
     if not m or not re.search(r"PhysicalType::VarBytes,\s*false,", m.group(1)):
         raise Missing(f"{rel}: var-bytes blocks are written without a null bitmap")
     out.append("Definition value_varbytes_has_nulls : bool := false.")
+
+    # serde_json's float reader: correctly rounded only with the float_roundtrip feature (WAL recovery, to_json re-parsing)
+    rel = "Cargo.toml"
+    src = read(rel)
+    m = re.search(r"\[dependencies\](.*?)(?:\n\[|\Z)", src, re.S)
+    if not m:
+        raise Missing(f"{rel}: [dependencies]")
+    dm = re.search(r"^serde_json\s*=\s*(.+)$", m.group(1), re.M)
+    if not dm:
+        raise Missing(f"{rel}: serde_json dependency")
+    spec = dm.group(1)
+    for feat in ("arbitrary_precision", "preserve_order"):
+        if feat in spec:
+            raise Missing(f"{rel}: serde_json feature {feat} changes the Value model")
+    out.append(f"Definition value_serde_float_roundtrip : bool := {'true' if 'float_roundtrip' in spec else 'false'}.")
+
+    # SelectionProjection::compute: are the RETURN fields appended in RETURN order (Vec) or in HashSet order?
+    rel = "src/engine/core/read/projection/strategies.rs"
+    src = read(rel)
+    m = re.search(r"let projected:\s*(\w+)<String>\s*=\s*list\s*\.iter\(\)(.*?)set\.add_many\(projected\);", src, re.S)
+    if not m or m.group(1) not in ("Vec", "HashSet"):
+        raise Missing(f"{rel}: SelectionProjection::compute `let projected: Vec|HashSet<String> = list.iter()...`")
+    if ".filter(" not in m.group(2) or "is_core_field" not in m.group(2):
+        raise Missing(f"{rel}: RETURN fields are filtered to core / schema fields")
+    out.append(f"Definition value_return_order_stable : bool := {'true' if m.group(1) == 'Vec' else 'false'}.")
